@@ -15,6 +15,18 @@ CLAIMED = {
                      "all Go conversions explicit). A changed expression changes the generated file and the theorems are re-checked against it.",
                 note=BASE_TB + "Modelled not verified: Go's two's-complement wrap semantics (wrapS/wrapU); embedded expressions are tied by "
                      "regeneration only; CreateSidecar's total is additionally read back from a real sidecar file."),
+    "C18": dict(category="proof", design="DESIGN.md §4 C18",
+                technique="Lean 4 generic layout-codec round-trip theorem; layouts checked by `decide` against token lists regenerated from write*/read* bodies; two-way encoder/decoder differential",
+                text="decode(encode r ++ rest) = (r, rest) for every record within the field limits, for sequences, and for the header, proved by induction on "
+                     "layouts; the nine record layouts and the readControlMessage dispatch table are compared (decide) with what xlate reads off controlproto.go on "
+                     "every run, and the real write*/readControlMessage are run against the Lean encoder/decoder on generated records (byte equality both ways).",
+                note=BASE_TB + "Modelled not verified: encoding/json of the manifest inside the header (opaque bytes to the theorems); io.ReadFull/binary.Read EOF behaviour as modelled by takeN."),
+    "C17": dict(category="proof", design="DESIGN.md §4 C17",
+                technique="Lean 4 invariants over arbitrary op lists of a line-by-line model of sendFileState + scheduler; exhaustive and random op-sequence differential on the real struct",
+                text="Strictly-increasing (hence exactly-once) dispatch, plan-skipping, single re-send per mismatch, single FileEnd and its emission conditions are "
+                     "theorems over ALL operation lists (any number of workers, any arrival time of plan/verdict). The model is tied by running every generated op "
+                     "sequence (exhaustive up to length 6/7) on the real sendFileState methods and comparing outputs and full state; scheduler choices must lie in the model's allowed set.",
+                note=BASE_TB + "Modelled not verified: applyResumeInfo's closure is represented by its three locked updates; scheduler credits abstracted to nondeterministic choice; Go mutex gives atomicity of each method."),
 }
 PENDING_REASON = "check not built yet in this round (design in DESIGN.md §4); not claimed until its theorem and tie exist"
 NOT_APPLICABLE = {}
